@@ -85,7 +85,7 @@ def run_task(task, context, completed_task_queue):
         task.run(context)
     except TaskFailure as excp:
         task.result = TaskResultFailure(str(excp))
-    except Exception:
+    except BaseException:  # including SystemExit & co: the task must be reported as completed in any case
         task.result = TaskResultException(serialize_current_exception())
     else:
         task.result = TaskResultSuccess()
@@ -125,7 +125,7 @@ def skip_task(task, context, completed_task_queue, reason=""):
     _debug("skip task %s" % task)
     try:
         task.skip(context, reason)
-    except Exception:
+    except BaseException:  # including SystemExit & co: the task must be reported as completed in any case
         task.result = TaskResultException(serialize_current_exception())
     else:
         task.result = TaskResultSkipped(reason)
